@@ -211,7 +211,8 @@ def decoded_value(st, j, thunk):
     def val():
         r = wire.args_parse(st, [(NAMES[j], TYPES[j])], thunk())
         if r is None:
-            raise sym.EngineError('structured property no longer parses')
+            # (only reachable when the code under analysis put the path into a state the grammar excludes)
+            return SOpaque('foreign', st.fresh('unparsable_property', sym.ObjS))
         if r[2] is not True:
             st.assume(B(r[2]))
         return r[0][NAMES[j]]
